@@ -118,6 +118,20 @@ def h_window(env, fn="extract", half=False):
                 env.check("inside_voxel_copied", env.eq(val, at(vol, vidx)))
             else:
                 env.check("outside_voxel_is_volume_mean", env.eq(val, float(np.mean(vol))))
+    elif fn == "extract_enforce":
+        # enforce_shape: the result has the VOLUME's shape; the requested window keeps the volume's voxels, everything else is the mean
+        w = cm.extract_subvolume(vol, co, ss, enforce_shape=True)
+        env.check("result_has_volume_shape", env.and_(*[env.eq(x, y) for x, y in zip(w.shape, V)]))
+        q = [env.integer("q%s" % a, 0, 39) for a in "xyz"]
+        env.assume(env.and_(*[env.lt(x, v) for x, v in zip(q, V)]))
+        in_win = env.and_(*[env.and_(env.ge(q[k], start[k]), env.lt(q[k], start[k] + S[k])) for k in range(3)])
+        val = at(w, q)
+        if env.mode == "sym":
+            mean = _mean_symbol(vol)
+            env.check("window_voxels_kept", env.implies(in_win, env.eq(val, vol.at(q))))
+            env.check("other_voxels_are_volume_mean", env.implies(env.not_(in_win), env.eq(val, mean)))
+        else:
+            env.check("window_voxels_kept" if bool(in_win) else "other_voxels_are_volume_mean", env.eq(val, at(vol, q) if bool(in_win) else float(np.mean(vol))))
     else:
         vs, ve, ws, we = cm.get_start_end_indices(co, tuple(V) if env.mode == "conc" else objcol(V), ss)
         for k in range(3):
@@ -259,7 +273,7 @@ def jobs(tier, seed):
     j = []
     for k, a in enumerate(cube_angles()):
         j.append(("h_rotate_cube", {"angles": a, "via": "angles" if k % 2 == 0 else "rotation"}))
-    j += [("h_window", {"fn": "extract"}), ("h_window", {"fn": "extract", "half": True}),
+    j += [("h_window", {"fn": "extract"}), ("h_window", {"fn": "extract", "half": True}), ("h_window", {"fn": "extract_enforce"}),
           ("h_crop_pad", {"fn": "crop"}), ("h_crop_pad", {"fn": "pad"})]
     for n in ((2, 3, 4, 7) if tier == "quick" else range(2, 13)):
         j.append(("h_symmetrize", {"n": n, "spelling": "num" if n % 2 else "C"}))
